@@ -145,7 +145,7 @@ def merge_asserts(res: CheckResult, repo: str, want_c=None):
     # childless element), wherever in the merge it stands
     res.rules['NO-ELEM-BOOL'] = RULES['NO-ELEM-BOOL'] + ' inside a merge or a tree helper (false for a childless element; DeprecationWarning, an exception under -W error)'
     hits = 0
-    for cname, r in collect_merge(res, repo).items():
+    for cname, r in collect_merge(res, repo, want_c or (lambda c: True)).items():
         if want_c is not None and not want_c(cname):
             continue
         for f in r['findings']:
@@ -417,7 +417,27 @@ def prop_C12(repo, tier):
                 res.add('CLASSIFY-TOTAL', f['func'], f['construct'], False, f['detail'], f['file'], f['line'], f['witness'])
     from . import rules_shape
     rules_shape.handler_covers(res, program(repo))
+    # a merge that hands back something else than the running order makes the *next* `ro += message` fail with TypeError
+    n_ret = 0
+    for cname, r in results.items():
+        for f in r['findings']:
+            if f['rule'] == 'RETURNS-RO':
+                n_ret += 1
+                res.add('NO-BUILTIN-ESCAPE', f['func'], f['construct'], False,
+                        f['detail'] + ' (the next message added to that result fails with TypeError / AttributeError)', f['file'], f['line'], f['witness'])
+    # the collection's own loop, interpreted over symbolic messages that merge or raise MosMergeError
+    from .analysis import coll_results
+    for r in coll_results(repo):
+        if not r['ok']:
+            res.error(r['error'])
+            continue
+        lib = ('MosMergeError', 'MosCompletedMergeError')
+        bad = sorted({o['result'] for o in r['outcomes'] if o['result'].startswith('raise') and o['result'][6:] not in lib})
+        res.add('NO-BUILTIN-ESCAPE', 'MosCollection.merge', f'exceptions leaving merge(strict={r["strict"]}) when every message merges or raises MosMergeError', not bad,
+                '' if not bad else f'MosCollection.merge(strict={r["strict"]}) can end with {bad}')
     stale_cache(res, repo, merges=True)
+    from . import rules_shape as _rsd
+    _rsd.no_shared_memo(res, program(repo))
     res.floors = {'NO-BUILTIN-ESCAPE': 20, 'CLASSIFY-TOTAL': 3}
     res.explanation = (
         'Static nullness / partial-operation analysis with exception flow. For each of the 24 merges entered through '
@@ -531,6 +551,8 @@ def prop_C15(repo, tier):
                     ok, detail = False, f'{entry} also depends on {extra}'
             res.add('READS-OWN-TAG', entry, f'reads <{ptag}>/<{tag}>', ok, detail)
         res.extra['functions_analysed'] = len(acc['functions'])
+    from . import rules_shape as _rsd
+    _rsd.no_shared_memo(res, program(repo))
     res.floors = {'NO-BUILTIN-ESCAPE': 25, 'ORDER-PIPE': 6, 'READS-OWN-TAG': 14}
     res.explanation = (
         'Static nullness/exception-flow analysis of every public read accessor of RunningOrder, Story and Item (and __str__/__repr__/'
@@ -598,6 +620,8 @@ def prop_C17(repo, tier):
             res.add('NOTE-TABLE', 'Story.script', f'text={row["text"]!r}', ok,
                     '' if ok else f'script yields {got} for paragraph text {row["text"]!r}; the specification says {row["expected"]!r}')
     stale_cache(res, repo, jobs=('accessors',), funcs=lambda f: f.split('.')[-1] in ('script', 'body', 'stories', 'items', 'base_tag'))
+    from . import rules_shape as _rsd
+    _rsd.no_shared_memo(res, program(repo))
     res.floors = {'ORDER-PIPE': 4, 'BODY-MAP': 3, 'NOTE-TABLE': 20, 'SAME-STORIES': 2}
     res.explanation = (
         'Static analysis: (1) ORDER-PIPE/BODY-MAP from the abstract evaluation of Story.body/script and RunningOrder.body/script; '
@@ -676,6 +700,8 @@ def prop_C20(repo, tier):
         for f in ir['findings']:
             res.add(f['rule'], f['func'], f['construct'], False, f['detail'], f['file'], f['line'], f['witness'])
     stale_cache(res, repo, merges=True, jobs=('msgaccessors', 'inspect'))
+    from . import rules_shape as _rsd
+    _rsd.no_shared_memo(res, program(repo))
     res.floors = {'ACCESSOR-ROLE': 35, 'INSPECT-TOTAL': 20, 'INSPECT-SOURCES': 12, 'INSPECT-LABEL': 15}
     res.explanation = (
         'Static analysis of every message class: the abstract interpreter evaluates each public accessor on a symbolic schema-shaped '
@@ -966,6 +992,8 @@ def prop_C09(repo, tier):
         res.add('DEFAULT-STRICT', 'MosCollection.merge', 'def merge(self, *, strict=True)', ok, '' if ok else f'signature: positional={r["positional"]} keyword-only={sig}')
     rules_shape.handler_covers(res, prog)
     rules_shape.fresh_read(res, prog)
+    # "in ascending message-ID order": the list merge() folds is the one the constructors sorted
+    rules_shape.sorted_ctors(res, prog)
     from . import rules_pred
     tmp = CheckResult('C09', tier)
     rules_pred.accept_table(tmp, prog)
@@ -980,6 +1008,8 @@ def prop_C09(repo, tier):
         for e in tmp.errors:
             res.error(e)
     res.obligations.extend(o for o in tmp.obligations if o.rule == 'POST-STATE')
+    from . import rules_shape as _rsd
+    _rsd.no_shared_memo(res, program(repo))
     res.floors = {'FOLD-LOOP': 2, 'FRESH-READ': 2, 'APPLY-VIA-ADD': 1, 'STRICT-RERAISE': 1, 'ONE-WARNING': 2, 'POST-STATE': 2}
     res.explanation = (
         'Static analysis: MosCollection.merge is interpreted (strict=True and strict=False) over a symbolic collection whose reader list '
@@ -1014,6 +1044,8 @@ def prop_C10(repo, tier):
             for f in r['findings']:
                 if f['rule'] == 'FOLD-LOOP':
                     res.add('ORDER-PRESERVED', f['func'], f['construct'][:160], False, f['detail'], f['file'], f['line'], f['witness'])
+    from . import rules_shape as _rsd
+    _rsd.no_shared_memo(res, program(repo))
     res.floors = {'SORTED-CTORS': 3, 'LT-NUMERIC': 4, 'ID-IS-INT': 3, 'ORDER-PRESERVED': 2}
     res.explanation = (
         'Static analysis of the premises of permutation invariance: each of the three collection constructors, interpreted over a symbolic '
